@@ -308,6 +308,7 @@ def body(ck):
     ck.not_proved = ["transparency of jit / vmap (a property of JAX/XLA): observed on the built-in environments with tolerance, not proved",
                      "environment functions depend only on explicit arguments: immutability of equinox modules is assumed; observed by re-evaluation"]
     ck.build_coq(); ck.compile_props()
+    ck.kernel_link()   # iteration() for N > 1 environments regenerated from the source: environment i = its own single-environment collection (coq/link/C12_link.v)
     quick = ck.tier == "quick"
     hist = HistoryProbe(ck, quick)          # subprocesses; collected at the end
     real_vs_real(ck, ck.rng, 5 if quick else 60)
